@@ -5,6 +5,36 @@ use checks::runner::{parse_args, Runner, Viol};
 use checks::td;
 use serde_json::json;
 
+fn run_thorough() -> bool {
+    std::env::args().any(|a| a == "thorough")
+}
+
+fn long_history(kind: usize, delta: f64, backlog: usize, len: usize) -> (u64, Option<(String, String)>) {
+    let mut st = td::TSt { d: td::Dg::new(kind, delta, backlog), agg: td::Agg::default() };
+    let ws = [1.0, 0.5, 3.0, 1e-3, 250.0, 0.0];
+    let mut cmp = 0u64;
+    for i in 0..len {
+        let v = (((i as u64 * 7919) % 10007) as f64 - 5000.0) * 0.37;
+        let w = ws[i % 6];
+        let r = mccore::panics::catch(|| {
+            st.d.insert_weighted(v, w);
+            st.agg.add(v, w);
+            if i % 113 == 112 {
+                let _ = st.d.quantile(0.25);
+            }
+        });
+        if let Err(p) = r {
+            return (i as u64, Some(("panic".into(), format!("op {} panicked: {}", i, p))));
+        }
+        if i % 97 == 96 || i + 1 == len {
+            if let Some(b) = td::c16_oracle(&st, &mut cmp) {
+                return (i as u64, Some((b.0, format!("after {} operations: {}", i + 1, b.1))));
+            }
+        }
+    }
+    (len as u64, None)
+}
+
 fn main() {
     let args = parse_args();
     let mut run = Runner::new("C16", &args.tier, "model_checking");
@@ -25,6 +55,15 @@ fn main() {
         for (sig, msg, hist) in out.viols {
             run.violation(Viol { property: "C16".into(), signature: format!("tdigest {}", sig), message: format!("{}(delta={}) backlog={}: {}", td::KIND_NAMES[*k], d, b, msg),
                 replay: json!({"structure": "TDigest", "scale_function": td::KIND_NAMES[*k], "delta": d, "max_backlog_size": b, "history": hist.iter().map(|&o| td::op_name(o)).collect::<Vec<_>>()}) });
+        }
+    }
+    // long deterministic weighted histories (accumulation accuracy, many centroids, interleaved reads)
+    let ljobs: Vec<(usize, f64, usize)> = (0..4).flat_map(|k| [(k, 20.0, 7usize), (k, 300.0, 0), (k, 3.0, 100)]).collect();
+    let lres = par_map(&ljobs, n_threads(), |&(k, d, b)| long_history(k, d, b, if run_thorough() { 60_000 } else { 8_000 }));
+    for ((k, d, b), (n, bad)) in ljobs.iter().zip(lres) {
+        nodes += n;
+        if let Some((sig, msg)) = bad {
+            run.violation(Viol { property: "C16".into(), signature: format!("tdigest long history {}", sig), message: format!("{}(delta={}) backlog={}: {}", td::KIND_NAMES[*k], d, b, msg), replay: json!({"structure": "TDigest", "scale_function": td::KIND_NAMES[*k], "delta": d, "max_backlog_size": b, "history": "i-th op: insert_weighted(v_i, w_i), v_i = ((i*7919)%10007 - 5000)*0.37, w_i = [1, 0.5, 3, 1e-3, 250, 0][i%6]; read every 113 ops; zero weights skipped by the library"}) });
         }
     }
     run.ev.set("states", json!(nodes));
